@@ -330,7 +330,7 @@ func newGeneratorInterp(L *Loaded) (*Interp, func() *Obj) {
 		cObj.set("latestReturn", v)
 		cObj.set("latestReturnType", g)
 		cObj.set("latestIsTemp", temp)
-		in.event("evaluate:"+string(name), "", call.Pos())
+		in.event("evaluate:"+string(name), "", call.Pos(), cObj.get("cbb"), v)
 		return TupleV{v, g, temp}, true
 	}
 	in.Models["compiler.(*compiler).err"] = func(in *Interp, pkg *packages.Package, call *ast.CallExpr, recv Val, args []Val) (Val, bool) {
@@ -400,6 +400,28 @@ func newGeneratorInterp(L *Loaded) (*Interp, func() *Obj) {
 	}
 	in.Models["compiler.getFieldIndex"] = func(in *Interp, pkg *packages.Package, call *ast.CallExpr, recv Val, args []Val) (Val, bool) {
 		return Unk{"field index"}, true
+	}
+	in.Models["compiler.(*compiler).visitNode"] = func(in *Interp, pkg *packages.Package, call *ast.CallExpr, recv Val, args []Val) (Val, bool) {
+		name := "?"
+		if n, ok := args[0].(*Obj); ok {
+			if s, ok := n.get("name").(StrV); ok {
+				name = string(s)
+			}
+		}
+		in.event("visit:"+name, "", call.Pos(), cObj.get("cbb"))
+		return TupleV(nil), true
+	}
+	in.Models["compiler.(*scope).lookupVar"] = func(in *Interp, pkg *packages.Package, call *ast.CallExpr, recv Val, args []Val) (Val, bool) {
+		w := newObj("varwrapper")
+		w.set("val", &IRVal{Op: "operand", Src: "var", Class: "ptr"})
+		w.set("typ", Unk{"var type"})
+		if d, ok := args[0].(*Obj); ok {
+			if tv, ok := d.get("Type").(TypeV); ok {
+				w.set("typ", toGen(tv.T))
+			}
+		}
+		w.set("isRef", boolV(false))
+		return w, true
 	}
 	in.Models["compiler.(*compiler).deepCopyInto"] = func(in *Interp, pkg *packages.Package, call *ast.CallExpr, recv Val, args []Val) (Val, bool) {
 		in.event("deepCopy", "", call.Pos())
